@@ -309,6 +309,51 @@ func decodeProvenance(c *Ctx, rule string, res *Result, spec inboundSpec) {
 	}
 }
 
+// decodedComplete: on every accepting path the returned object is the target of exactly one xml.Unmarshal and that
+// call's error is nil on the path (a decode whose failure is swallowed returns a partially filled object).
+func decodedComplete(c *Ctx, rule string, specs ...inboundSpec) {
+	for _, spec := range specs {
+		res := c.kernel(spec.Entry, inboundInline...)
+		if res == nil {
+			continue
+		}
+		fname := shortFn(res.Root)
+		n := 0
+		for _, t := range res.Terms {
+			if !t.accepting(res.Root) {
+				continue
+			}
+			n++
+			obj := t.Vals[0]
+			pos := c.P.InstrPos(t.Instr)
+			label := labelReturn(c, t)
+			var ds []decode
+			for _, d := range decodes(t) {
+				if d.Obj.Key() == obj.Key() {
+					ds = append(ds, d)
+				}
+			}
+			what := "returned " + spec.Kind + " is the product of one successful decode [" + label + "]"
+			switch {
+			case len(ds) != 1:
+				o := c.bad(rule, fname, what, pos, fmt.Sprintf("%d decodes into the returned object on an accepting path", len(ds)))
+				o.Path = t.pathDesc(c.P)
+			case len(ds[0].Ev.Res) != 1:
+				c.bad(rule, fname, what, pos, "decoder call without an error result")
+			default:
+				if isNil, known := t.eqFact(ds[0].Ev.Res[0], nilOf(ds[0].Ev.Res[0].Type())); known && isNil {
+					c.ok(rule, fname, what, pos, "xml.Unmarshal error is nil on the path")
+				} else {
+					o := c.bad(rule, fname, what, pos, "the path accepts without having established that xml.Unmarshal returned nil: a failed decode leaves a partially filled "+spec.Kind)
+					o.Path = t.pathDesc(c.P)
+				}
+			}
+		}
+		c.count(rule+"/"+spec.Kind, n)
+		c.floor(rule+"/"+spec.Kind, spec.Floor)
+	}
+}
+
 // ---------------------------------------------------------------- C01
 
 func ruleC01(c *Ctx) {
@@ -532,6 +577,12 @@ func checkDirectChild(c *Ctx, rule string, t *Terminal, fname string, enter *Eve
 			exit = e
 			break
 		}
+	}
+	if exit != nil && len(exit.Res) == 1 && isHaltSentinel(exit.Res[0]) {
+		o := c.bad(rule, fname, "handler "+shortFn(enter.CalleeFn)+" lets the traversal visit every element", c.P.InstrPos(enter.Instr),
+			"the handler returns etreeutils.ErrTraversalHalted on an accepting path: the walk stops with success and the elements after this one are never examined")
+		o.Path = t.pathDesc(c.P)
+		return
 	}
 	if exit == nil || len(exit.Res) == 0 || !isNilConst(exit.Res[0]) {
 		return // handler returned an error on this path
